@@ -5,6 +5,7 @@ import collections
 import json
 
 import ber
+import guard
 import codec as C
 import drive
 import gen
@@ -27,7 +28,7 @@ def fail_closed(prep, chunks):
     notif = []
     for idx, ch in enumerate(chunks):
         try:
-            s.receive(bytes(ch))
+            guard.guarded(lambda: s.receive(bytes(ch)), 20.0)
         except sansldap.ProtocolError as e:
             out = []
             if s.state.name != "CLOSED":
